@@ -67,6 +67,19 @@ func (ex *Exec) parseSpecType(name string, u *Unit) types.Type {
 	if strings.HasPrefix(name, "[]") {
 		return types.NewSlice(ex.parseSpecType(name[2:], u))
 	}
+	if strings.HasPrefix(name, "map[") {
+		d := 0
+		for i := 3; i < len(name); i++ {
+			if name[i] == '[' {
+				d++
+			} else if name[i] == ']' {
+				d--
+				if d == 0 {
+					return types.NewMap(ex.parseSpecType(name[4:i], u), ex.parseSpecType(name[i+1:], u))
+				}
+			}
+		}
+	}
 	if strings.HasPrefix(name, "[") {
 		if i := strings.Index(name, "]"); i > 0 {
 			var n int64
